@@ -2056,10 +2056,16 @@ class Builder(object):
             msg = "Error building %s. Unused tokens." % (command,)
             raise excepting.ParseError(msg, tokens, index)
 
+        try:
+            value = float(value)
+        except OverflowError:
+            msg = "Error building %s. invalid timeout %s." % (command, value)
+            raise excepting.ParseError(msg, tokens, index)
+
         # build need act for transact
         need = self.makeImplicitDirectFramerNeed( name="elapsed",
                                                   comparison='>=',
-                                                  goal=float(value),
+                                                  goal=value,
                                                   tolerance=0)
 
         needs = []
@@ -2109,10 +2115,16 @@ class Builder(object):
             msg = "Error building %s. Unused tokens." % (command,)
             raise excepting.ParseError(msg, tokens, index)
 
+        try:
+            value = int(value)
+        except (OverflowError, ValueError):  # inf or nan
+            msg = "Error building %s. invalid repeat %s." % (command, value)
+            raise excepting.ParseError(msg, tokens, index)
+
         # build need act for transact
         need = self.makeImplicitDirectFramerNeed( name="recurred",
                                                   comparison='>=',
-                                                  goal=int(value),
+                                                  goal=value,
                                                   tolerance=0)
 
         needs = []
